@@ -12,11 +12,11 @@ use serde_json::json;
 pub const SPEC: PropSpec = PropSpec {
 	id: "C09",
 	level: "exploration",
-	rule: "three kinds of case. (parsed) random spelling with extra attributes -> Schema::json() must be JSON-equal (same keys, same order) to the source and contain no insignificant whitespace (independent tokenizer). (built) node graph assembled through the public builder API with unique fullnames, with DAG sharing of named nodes, cycles through records, and every namespace arrangement at an edge incl. null-namespace types referenced from inside a namespace (not expressible by the text generator) -> Schema::json() and serde_json::to_string(&SchemaMut) are read by the independent reference resolver and must be bisimilar to the built graph; re-parsing with the crate must give the same fingerprint. (edited) parsed document + nodes_mut() no-op edit -> regenerated JSON, same check. (inexpressible) a cycle through unnamed nodes only, or a logical type on a union, must give Err. distinct by hash(graph shape, json text)",
+	rule: "three kinds of case. (parsed) random spelling with extra attributes -> Schema::json() must be JSON-equal (same keys, same order) to the source and contain no insignificant whitespace (independent tokenizer). (built) node graph assembled through the public builder API with unique fullnames, with DAG sharing of named nodes, cycles through records, and every namespace arrangement at an edge incl. null-namespace types referenced from inside a namespace (not expressible by the text generator) -> Schema::json() and serde_json::to_string(&SchemaMut) are read by the independent reference resolver and must be bisimilar to the built graph; re-parsing with the crate must give the same fingerprint and a graph bisimilar to the built one (logical types and parameters included). (edited) parsed document + nodes_mut() no-op edit -> regenerated JSON, same check. (inexpressible) a cycle of 1-4 unnamed nodes (arrays, maps, unions whose other branches are named types defined there or already written earlier, so that by-name references occur inside the cycle), as the root or below a record, or a logical type on a union, must give Err from JSON rendering and from freeze, the cycles also from the fingerprint. distinct by hash(graph shape, json text)",
 	assumptions: &["numbers in extra attributes are small integers (JSON numbers re-rendered by serde_json stay equal)"],
 	cases: (50_000_000, 4_000_000_000),
 	secs: (30, 600),
-	required: &["parsed_json_preserved", "built_json_equivalent", "edited_json_equivalent", "inexpressible_rejected", "null_ns_type_referenced_from_namespace"],
+	required: &["parsed_json_preserved", "built_json_equivalent", "edited_json_equivalent", "inexpressible_rejected", "unnamed_cycle_with_named_branches", "null_ns_type_referenced_from_namespace"],
 	run_case,
 	once: None,
 	panics_are_violations: true,
@@ -163,6 +163,14 @@ fn check_regenerated(ctx: &mut Ctx, case_seed: u64, what: &str, built: &RSchema,
 					return false;
 				}
 			}
+			// ... and to the same graph, logical types and their parameters included (the fingerprint ignores those)
+			let reparsed = RSchema::from_schema_mut(&sm);
+			if let Err(why) = bisimilar(built, &reparsed) {
+				let class: String = why.split(':').nth(1).unwrap_or("").split_whitespace().take(2).collect::<Vec<_>>().join("-");
+				ctx.violation(format!("{what}: crate-reparse-of-its-own-json-gives-a-different-schema {class}"), case_seed, describe(json!({"difference": why})));
+				return false;
+			}
+			ctx.count("reparsed_graph_equal");
 		}
 		Err(e) => {
 			// leading-dot references are outside what the parser is specified to read; anything else is a defect
@@ -283,28 +291,8 @@ pub fn run_case(ctx: &mut Ctx, case_seed: u64) {
 		_ => {
 			// ---- inexpressible graphs
 			let p = |k: Kind| Node { kind: k, logical: None };
-			let (g, why) = match rng.below(4) {
-				0 => (RSchema { nodes: vec![p(Kind::Array(0))] }, "array containing itself"),
-				1 => (
-					RSchema {
-						nodes: vec![p(Kind::Map(1)), p(Kind::Union(vec![2, 0])), p(Kind::Null)],
-					},
-					"map -> union -> map cycle",
-				),
-				2 => (
-					RSchema {
-						nodes: vec![
-							p(Kind::Record {
-								name: "R".into(),
-								fields: vec![("a".into(), 1)],
-							}),
-							p(Kind::Array(2)),
-							p(Kind::Array(1)),
-						],
-					},
-					"two arrays containing each other below a record",
-				),
-				_ => (
+			let (g, why): (RSchema, &str) = if rng.chance(1, 5) {
+				(
 					RSchema {
 						nodes: vec![
 							Node {
@@ -316,7 +304,73 @@ pub fn run_case(ctx: &mut Ctx, case_seed: u64) {
 						],
 					},
 					"logical type on a union",
-				),
+				)
+			} else {
+				// a cycle of 1-4 unnamed nodes (arrays, maps, unions); its unions have other branches too - named types that are
+				// defined right there or were already written earlier (so that they appear as by-name references inside the cycle);
+				// the whole thing is the root or hangs below a record whose earlier fields define those named types
+				let below_record = rng.coin();
+				let mut nodes: Vec<Node> = Vec::new();
+				if below_record {
+					nodes.push(p(Kind::Null)); // placeholder for the root record
+				}
+				let len = 1 + rng.below(4);
+				let base = nodes.len();
+				let e = base + len;
+				let f = base + len + 1;
+				let nul = base + len + 2;
+				let mut prev_union = false;
+				let mut uses_named = false;
+				for i in 0..len {
+					let next = base + (i + 1) % len;
+					let first_is_union = i + 1 == len && matches!(nodes.get(base).map(|n| &n.kind), Some(Kind::Union(_)));
+					let k = if prev_union || first_is_union || len == 1 { rng.below(2) } else { rng.below(3) };
+					prev_union = k == 2;
+					nodes.push(p(match k {
+						0 => Kind::Array(next),
+						1 => Kind::Map(next),
+						_ => {
+							let mut bs = vec![next];
+							if rng.coin() {
+								bs.push(e);
+								uses_named = true;
+							}
+							if rng.coin() {
+								bs.push(f);
+								uses_named = true;
+							}
+							if rng.coin() {
+								bs.push(nul);
+							}
+							rng.shuffle(&mut bs);
+							Kind::Union(bs)
+						}
+					}));
+				}
+				nodes.push(p(Kind::Enum {
+					name: "ns.E".into(),
+					symbols: vec!["A".into(), "B".into()],
+				}));
+				nodes.push(p(Kind::Fixed { name: "F".into(), size: 4 }));
+				nodes.push(p(Kind::Null));
+				if below_record {
+					let mut fields: Vec<(String, Id)> = Vec::new();
+					if rng.coin() {
+						fields.push(("e_first".into(), e));
+					}
+					if rng.coin() {
+						fields.push(("f_first".into(), f));
+					}
+					fields.push(("cyc".into(), base));
+					if rng.coin() {
+						fields.push(("e_after".into(), e));
+					}
+					nodes[0] = p(Kind::Record { name: "R".into(), fields });
+				}
+				if uses_named {
+					ctx.count("unnamed_cycle_with_named_branches");
+				}
+				(RSchema { nodes }, "cycle through unnamed nodes only")
 			};
 			let sm = g.to_schema_mut();
 			let r1 = serde_json::to_string(&sm);
@@ -325,6 +379,19 @@ pub fn run_case(ctx: &mut Ctx, case_seed: u64) {
 					format!("inexpressible-graph-rendered ({why})"),
 					case_seed,
 					json!({"graph": format!("{:?}", g.nodes), "json": t}),
+				);
+				return;
+			}
+			// the same graph has no canonical form and cannot become a usable schema either
+			let r2 = sm.canonical_form_rabin_fingerprint();
+			let r3 = sm.freeze();
+			// (the canonical form ignores logical types, so a fingerprint exists for the union with a logical type)
+			let cyclic = why.starts_with("cycle");
+			if (cyclic && r2.is_ok()) || r3.is_ok() {
+				ctx.violation(
+					format!("inexpressible-graph-accepted ({why}) fingerprint_ok={} freeze_ok={}", r2.is_ok(), r3.is_ok()),
+					case_seed,
+					json!({"graph": format!("{:?}", g.nodes), "frozen_json": r3.as_ref().ok().map(|s| s.json().to_owned())}),
 				);
 				return;
 			}
